@@ -145,10 +145,17 @@ def typed_constants(tname):
         return f"{typ}({s})"
 
     P.make_constant = make_constant
+    # the literal `1` inside the C++ `sign` template is an untyped constant too
+    # (`std::copysign(1, x)` is `double` for a `float` x)
+    old_sign = P.kind_to_target.get("sign") if tname == "cpp" else None
+    if isinstance(old_sign, str) and "copysign(1," in old_sign:
+        P.kind_to_target["sign"] = old_sign.replace("copysign(1,", "copysign(({typeof_0})(1),")
     try:
         yield
     finally:
         P.make_constant = orig
+        if isinstance(old_sign, str):
+            P.kind_to_target["sign"] = old_sign
 
 
 def print_variant(graph, tname, name, variant):
@@ -194,7 +201,7 @@ def compare_py(real, expect, eager_exc):
     if isinstance(real, interp.Exc):
         if eager_exc:
             return None
-        return f"emitted code raised {real.name}; direct evaluation raises nothing"
+        return f"emitted code raised {real.name} ({real.msg}); direct evaluation raises nothing"
     if isinstance(expect, interp.Exc):
         return f"direct evaluation raises {expect.name} (even lazily); emitted code returned {interp.canon(real)}"
     a, b = interp.canon(real), interp.canon(expect)
@@ -305,14 +312,22 @@ def prepare(case, g, target, tname, fname, prints, cfg):
     try:
         argtys = [P.get_type(a) for a in g.operands[1:-1]]
         retty = P.get_type(g.operands[-1])
-        for t in argtys + [retty]:
-            if t not in CTYPE:
-                raise interp.Unsupported(f"C type {t}")
-        argtypes = [str(a.operands[1]) for a in g.operands[1:-1]]
+    except Exception:  # noqa: BLE001
+        return out
+    if not all(t in CTYPE for t in argtys + [retty]):
+        out["unsupported"] = "C type outside the harness"
+        return out
+    variants = {"": text}
+    if {"constant", "sign"} & {e.kind for e in _walk(g)}:
+        v = print_variant(g, "cpp", fname + "__typed", "typed-constants")
+        if v is not None:
+            variants["__typed"] = v
+    argtypes = [str(a.operands[1]) for a in g.operands[1:-1]]
+    inputs, expects = [], []
+    try:
         rng = random.Random(f"{cfg.get('seed', 0)}:{case['id']}")
         inputs = make_inputs(rng, argtypes, cfg.get("ninputs", 40))
         I = interp.Interp("cpp")
-        expects = []
         for tup in inputs:
             vals = []
             for t, v in zip(argtypes, tup):
@@ -322,23 +337,9 @@ def prepare(case, g, target, tname, fname, prints, cfg):
                 r, _ = I.evaluate(g, vals)
             expects.append(r)
     except interp.Unsupported as ex:
-        # the interpreter cannot evaluate this graph: still compile and load the emitted source
+        # the interpreter cannot evaluate this graph: the emitted source is still compiled and loaded
         out["unsupported"] = str(ex)
-        try:
-            argtys = [P.get_type(a) for a in g.operands[1:-1]]
-            retty = P.get_type(g.operands[-1])
-            if all(t in CTYPE for t in argtys + [retty]):
-                _cpp_jobs.append(dict(id=case["id"], fname=fname, variants={"": text}, argtys=argtys, retty=retty, argtypes=[],
-                                      inputs=[], expects=[], out=out))
-        except Exception:  # noqa: BLE001
-            pass
-        return out
-    variants = {"": text}
-    has_const = "constant" in {e.kind for e in _walk(g)}
-    if has_const:
-        v = print_variant(g, "cpp", fname + "__typed", "typed-constants")
-        if v is not None:
-            variants["__typed"] = v
+        inputs, expects = [], []
     _cpp_jobs.append(dict(id=case["id"], fname=fname, variants=variants, argtys=argtys, retty=retty, argtypes=argtypes,
                           inputs=inputs, expects=expects, out=out))
     return out
@@ -416,6 +417,8 @@ def cmp_arrays(got, expects, retty):
 def run_compiled(lib, job, suffix):
     fn = getattr(lib, "w_" + job["fname"] + suffix)
     n = len(job["inputs"])
+    if n == 0:
+        return numpy.zeros(0)
     arrs = []
     for j, t in enumerate(job["argtys"]):
         _, dt = CTYPE[t]
